@@ -11,7 +11,7 @@ import os
 from vlib.common import Check, rng, run_case, pmap, workdir, cleanup, short
 
 CLASSES = ['PersistentThreadWorker', 'PersistentProcessWorker', 'PersistentRemoteWorker']
-STATES = ['never-used', 'results-unread', 'inputs-queued', 'closed', 'died-by-exception', 'killed', 'uncooperative', 'busy', 'slow-exit']
+STATES = ['never-used', 'results-unread', 'inputs-queued', 'closed', 'died-by-exception', 'killed', 'uncooperative', 'busy', 'slow-exit', 'slow-results']
 
 
 def kind_of(cls):
@@ -84,6 +84,11 @@ def case(spec, log):
         elif state == 'slow-exit':
             enq(kind='raise')
             time.sleep(0.3)     # outcome recorded, thread still inside its (slow) cleanup
+        elif state == 'slow-results':
+            # computed at once, but each result takes 0.7 s to rebuild on the receiving side: the old
+            # incarnation's results are still arriving when restart() is called
+            enq(kind='slowbox'); enq(kind='slowbox'); enq(kind='slowbox')
+            time.sleep(0.3)
         elif state == 'busy':
             enq(kind='slow')
             time.sleep(0.05)
@@ -103,13 +108,18 @@ def case(spec, log):
                 break
             alive = w.is_alive()
             new_id = w.id
+            # nothing was enqueued yet: the new stream must stay empty (the old incarnation may still be winding down)
+            ep = w.results_endpoint
+            stray = None
+            if bounded('stray_poll', lambda: ep.poll(spec.get('stray_window', 0.05)), 20) is True:
+                sm = bounded('stray_get', lambda: ep.get(), 20)
+                stray = repr(sm)[:160]
             # raw first message of the new stream
             probe = enq()
-            ep = w.results_endpoint
             raw = bounded('raw_first', lambda: ep.get(), 20)
             first = None if raw is HANG or isinstance(raw, Raised) else [raw[0], raw[1], raw[2], list(raw[3]) if raw[3] else raw[3]]
             log.ev('hop', hop=hop, outcome='returned', alive=alive, old_id=list(old_id), new_id=list(new_id), old_pid_running=old_running, name=w.name, userid=w.userid,
-                   probe=probe, first=first, raw_fail=(None if first else ('hang' if raw is HANG else repr(raw.exc)[:80])), own_process=own)
+                   probe=probe, first=first, stray=stray, raw_fail=(None if first else ('hang' if raw is HANG else repr(raw.exc)[:80])), own_process=own)
             # leave some unread results / queued work for the next hop
             if hop + 1 < spec['restarts']:
                 nxt = spec['between'][hop]
@@ -150,7 +160,7 @@ def judge(chk, spec, res):
             probs.append('restart-blocks')
         elif h['outcome'].startswith('raised'):
             chk.count('restart_raised_' + h['outcome'][7:])
-            if state not in ('uncooperative', 'slow-exit'):
+            if state not in ('uncooperative', 'slow-exit', 'slow-results'):
                 probs.append('restart-%s' % h['outcome'])
             # raising is the allowed way out for a worker that cannot be stopped
         else:
@@ -163,7 +173,9 @@ def judge(chk, spec, res):
             if not h['own_process'] and h['new_id'] == h['old_id']:
                 probs.append('same-identity-after-restart')
             f = h['first']
-            if f is None:
+            if h.get('stray'):
+                probs.append('new-stream-not-empty-before-any-input')
+            elif f is None:
                 probs.append('new-stream-%s' % h['raw_fail'])
             else:
                 counter, flag, value, wid = f
@@ -188,7 +200,7 @@ def judge(chk, spec, res):
 def run(tier):
     thorough = tier == 'thorough'
     chk = Check('C17', 'exploration', tier,
-                'states at restart {never used, results unread, inputs queued, closed, died by exception, killed by signal, uncooperative target, busy} x 1-3 consecutive restarts x thread/process/remote x {own pipe, caller-supplied Pipe}; '
+                'states at restart {never used, results unread, inputs queued, closed, died by exception, killed by signal, uncooperative target, busy, slow exit, results still arriving (slow to rebuild)} x 1-3 consecutive restarts x thread/process/remote x {own pipe, caller-supplied Pipe}; '
                 'distinct non-trivial = distinct (class, state, restarts, pipe, between-hop states)')
     r = rng('c17')
     jobs = []
@@ -196,8 +208,14 @@ def run(tier):
         for state in STATES:
             for supplied in (False, True):
                 reps = [1, 2, 3] if thorough else [r.choice([1, 2, 3])]
+                if state == 'slow-results':
+                    # the restart timeout relative to what the old incarnation still needs matters here
+                    for to in (0.3, 1, 1.5, 2.5):
+                        jobs.append(dict(cls=cls, state=state, supplied_pipe=supplied, restarts=1, timeout=to, stray_window=1.6, between=['idle'] * 3))
+                    continue
                 for n in reps:
-                    jobs.append(dict(cls=cls, state=state, supplied_pipe=supplied, restarts=n, timeout=0.5, between=[r.choice(['unread', 'queued', 'dead', 'idle']) for _ in range(3)]))
+                    jobs.append(dict(cls=cls, state=state, supplied_pipe=supplied, restarts=n, timeout=0.5,
+                                     stray_window=0.05, between=[r.choice(['unread', 'queued', 'dead', 'idle']) for _ in range(3)]))
     wd = workdir('c17')
 
     def one(ij):
@@ -207,7 +225,7 @@ def run(tier):
         return sp, res
 
     for sp, res in pmap(one, list(enumerate(jobs)), 10):
-        chk.case((sp['cls'], sp['state'], sp['restarts'], sp['supplied_pipe'], tuple(sp['between'][:sp['restarts'] - 1])))
+        chk.case((sp['cls'], sp['state'], sp['restarts'], sp['supplied_pipe'], sp['timeout'], tuple(sp['between'][:sp['restarts'] - 1])))
         chk.count('cases')
         judge(chk, sp, res)
     cleanup(wd)
